@@ -22,7 +22,7 @@ use rustc_hir::def::DefKind;
 use rustc_hir::def_id::{DefId, LocalDefId};
 use rustc_interface::interface;
 use rustc_middle::mir::*;
-use rustc_middle::ty::print::with_no_trimmed_paths;
+use rustc_middle::ty::print::{with_no_trimmed_paths, with_no_visible_paths};
 use rustc_middle::ty::{self, Instance, InstanceKind, Ty, TyCtxt, TypingEnv};
 use rustc_span::Span;
 use std::cell::RefCell;
@@ -79,7 +79,7 @@ struct Cx<'tcx> {
 
 impl<'tcx> Cx<'tcx> {
     fn dp(&self, d: DefId) -> String {
-        with_no_trimmed_paths!(self.tcx.def_path_str(d))
+        with_no_visible_paths!(with_no_trimmed_paths!(self.tcx.def_path_str(d)))
     }
     fn krate(&self, d: DefId) -> String {
         self.tcx.crate_name(d.krate).to_string()
@@ -88,7 +88,7 @@ impl<'tcx> Cx<'tcx> {
         if let Some(i) = self.type_ix.get(&t) {
             return J::I(*i as i128);
         }
-        let s = with_no_trimmed_paths!(t.to_string());
+        let s = with_no_visible_paths!(with_no_trimmed_paths!(t.to_string()));
         let mut defs: Vec<String> = Vec::new();
         for ga in t.walk() {
             if let Some(tt) = ga.as_type() {
@@ -301,7 +301,7 @@ fn dump_items<'tcx>(cx: &mut Cx<'tcx>) -> J {
                 let self_ty = tcx.type_of(d).instantiate_identity().skip_norm_wip();
                 let tr = tcx.impl_opt_trait_ref(d).map(|t| {
                     let t = t.instantiate_identity().skip_norm_wip();
-                    (cx.dp(t.def_id), with_no_trimmed_paths!(t.to_string()))
+                    (cx.dp(t.def_id), with_no_visible_paths!(with_no_trimmed_paths!(t.to_string())))
                 });
                 let mut assoc = Vec::new();
                 for it in tcx.associated_items(d).in_definition_order() {
@@ -406,7 +406,7 @@ fn const_json<'tcx>(cx: &mut Cx<'tcx>, owner: DefId, c: &ConstOperand<'tcx>) -> 
     let t = c.const_.ty();
     let mut v: Vec<(&'static str, J)> = Vec::new();
     v.push(("ty", cx.ty(t)));
-    let disp = with_no_trimmed_paths!(format!("{}", c.const_));
+    let disp = with_no_visible_paths!(with_no_trimmed_paths!(format!("{}", c.const_)));
     v.push(("s", J::S(disp)));
     if let ty::FnDef(d, _) = t.kind() {
         v.push(("fn", J::S(cx.dp(*d))));
@@ -520,7 +520,7 @@ fn callee_json<'tcx>(cx: &mut Cx<'tcx>, owner: DefId, func: &Operand<'tcx>, body
             let mut v: Vec<(&'static str, J)> = vec![
                 ("path", J::S(cx.dp(d))),
                 ("crate", J::S(cx.krate(d))),
-                ("full", J::S(with_no_trimmed_paths!(tcx.def_path_str_with_args(d, args)))),
+                ("full", J::S(with_no_visible_paths!(with_no_trimmed_paths!(tcx.def_path_str_with_args(d, args))))),
             ];
             let mut targs = Vec::new();
             for a in args.iter() {
